@@ -36,7 +36,17 @@ def decorate(rng, v):
         v["aci"] = rng.choice([0, 1])           # consumed by EnumString only; every other derive must ignore it
     if rng.random() < 0.15:
         v["xattrs"] = ["#[allow(dead_code)]"]    # a non-strum attribute next to the strum ones
-    if v["dis"] and rng.random() < 0.4:
+    # attributes of EnumString on payload variants: `default` (single String field) and default_with - every other derive
+    # ignores them (a default variant can still be disabled; payloads stay Default::default())
+    if v["kind"] == "tuple" and len(v["fields"]) == 1 and v["fields"][0]["ty"] == "String" and rng.random() < 0.5:
+        v["def"] = True
+    elif v["kind"] == "tuple" and len(v["fields"]) == 1 and v["fields"][0]["ty"] in ("u8", "i32", "bool", "String", "opt") and rng.random() < 0.4:
+        v["dwith"] = D.TYPES[v["fields"][0]["ty"]][4]
+    elif v["kind"] == "named" and rng.random() < 0.4:
+        for f in v["fields"]:
+            if f["ty"] in ("u8", "i32", "bool", "String", "opt"):
+                f["dw"] = D.TYPES[f["ty"]][4]
+    if v["dis"] and rng.random() < 0.4 and not v["def"] and not v.get("dwith"):
         split_disabled(rng, v)
     return v
 
@@ -59,7 +69,7 @@ def send_sync_check(E):
 def probe_nocapture(E):
     return ("%s\n%s\nimpl Probe for %s {\n    fn decl_index(&self) -> usize { %s::decl_index(self) }\n"
             "    fn payload_ok(&self) -> bool { payload_ok(self) }\n    fn captured(&self) -> Option<String> { None }\n}\n"
-            % (D.helper_impl(E), D.payload_ok_fn(E), D.inst(E), E["name"]))
+            % (D.helper_impl(E), D.payload_ok_fn(E, honour_default_with=False), D.inst(E), E["name"]))
 
 
 PROF = '    let prof = if cfg!(debug_assertions) { "dev" } else { "release" };\n'
